@@ -102,7 +102,7 @@ def is_pure_call(call):
     return False
 
 
-def node_kills(cfg, node, roots, chs, local_scalar_only=False):
+def node_kills(cfg, node, roots, chs, local_scalar_only=False, self_writes=None):
     """May executing `node` change the truth of a condition over (roots, chains)?"""
     for r in cfg.own_ast(node):
         if isinstance(r, (ast.FunctionDef, ast.AsyncFunctionDef, ast.ClassDef)):
@@ -119,6 +119,22 @@ def node_kills(cfg, node, roots, chs, local_scalar_only=False):
                     return True
             if isinstance(n, ast.Call) and not local_scalar_only and not is_pure_call(n):
                 f = n.func
+                if isinstance(f, ast.Attribute) and self_writes is not None and isinstance(f.value, ast.Name) and f.value.id in ("self", "cls"):
+                    # self.m(...): consult the callee's (transitive) self-attribute write summary
+                    w = self_writes(n)
+                    if w is not None:
+                        hit = False
+                        for c in chs:
+                            parts = c.split(".")
+                            if parts[0] == f.value.id and len(parts) > 1 and (parts[1] in w or "*" in w):
+                                hit = True
+                        if hit:
+                            return True
+                        for a in list(n.args) + [k.value for k in n.keywords]:
+                            d = dotted(a)
+                            if d and d not in ("self", "cls") and any(c == d or c.startswith(d + ".") for c in chs):
+                                return True
+                        continue
                 if isinstance(f, ast.Attribute):
                     d = dotted(f.value)
                     if d and any(c == d or c.startswith(d + ".") or d.startswith(c + ".") for c in chs if c not in ("self", "cls")):
@@ -133,13 +149,14 @@ def node_kills(cfg, node, roots, chs, local_scalar_only=False):
 
 
 class Guards:
-    def __init__(self, cfg, params=(), kinds=ALL_KINDS, kill=True):
+    def __init__(self, cfg, params=(), kinds=ALL_KINDS, kill=True, self_writes=None):
         """kill=False gives plain edge-dominance: "the test was evaluated with this outcome on
         every path to n" (used for check-then-act rules where the act itself changes the
         tested state, e.g. version check -> version increment -> write)."""
         self.cfg = cfg
         self.kinds = kinds
         self.kill = kill
+        self.self_writes = self_writes
         self.rd = ReachingDefs(cfg, params)
         self.labels = {}  # key -> (expr, roots, chains)
         for n in cfg.nodes:
@@ -169,7 +186,7 @@ class Guards:
             out_flag = flag
             if flag and self.kill:
                 if nid not in kill:
-                    kill[nid] = node_kills(self.cfg, n, roots, chs)
+                    kill[nid] = node_kills(self.cfg, n, roots, chs, self_writes=self.self_writes)
                 if kill[nid]:
                     out_flag = 0
             for d, k, c in n.succ:
